@@ -147,7 +147,38 @@ def run(chk, repo):
                 return
             else:
                 raise AnalysisError("clip: unexpected statement '%s'" % short(st))
-    walk(body, None, None)
+    # the arm taken for each combination of given / missing limits: the None tests are evaluated, whatever their wording
+    from ..dtable import Facts, walk as _dwalk
+    try:
+        arms2 = []
+        guards_done = set()
+        for lown_ in (True, False):
+            for highn_ in (True, False):
+                F_ = Facts(none=(["low"] if lown_ else []) + (["high"] if highn_ else []),
+                           kinds=dict(([("low", {"float"})] if not lown_ else []) + ([("high", {"float"})] if not highn_ else [])))
+                w_ = _dwalk(body, F_, "clip", strict=False)
+                for st_ in w_.ran:
+                    if isinstance(st_, ast.If) and norm_cmp(st_.test) is not None and st_.body and isinstance(st_.body[0], ast.Raise):
+                        if unparse(st_) not in guards_done:
+                            guards_done.add(unparse(st_))
+                            arms2.append(("guard", st_, lown_, highn_))
+                        chk.decide(not lown_ and not highn_, "C20.clip", WA("clip"),
+                                   "limits compared only when both are given (low %s, high %s)" % ("None" if lown_ else "given", "None" if highn_ else "given"),
+                                   why="comparing a missing limit raises TypeError", node=st_)
+                    elif isinstance(st_, ast.Return):
+                        arms2.append(("ret", st_, lown_, highn_))
+                    elif isinstance(st_, ast.If):
+                        raise AnalysisError("clip: unexpected test '%s'" % unparse(st_.test))
+                    else:
+                        raise AnalysisError("clip: unexpected statement '%s'" % short(st_))
+                chk.decide(w_.end == "return", "C20.clip", WA("clip"), "low %s, high %s -> %s" % (
+                    "None" if lown_ else "given", "None" if highn_ else "given", w_.end), why="every combination of limits "
+                    "returns a clipped Stream", node=clip)
+        # guards first (the two-sided arm relies on them), then the arms in the order of the confirmed reading
+        arms = [a for a in arms2 if a[0] == "guard"] + [a for a in arms2 if a[0] == "ret"]
+    except AnalysisError:
+        arms = []
+        walk(body, None, None)
     rets = [a for a in arms if a[0] == "ret"]
     chk.require(len(rets) == 4, "clip: expected four return arms, found %d" % len(rets))
     guard_seen = False
